@@ -160,7 +160,12 @@ pub fn c03_idempotent(input: &str, cfg: &Cfg) -> Vec<String> {
             let in_child = snap.lines.iter().any(|l| {
                 l.parent.is_some() && l.tokens.iter().any(|&t| snap.kinds.get(t).map_or(false, |k| k.contains("TextLiteral(MultiLine)")))
             });
-            if in_child {
+            // a literal that the first run leaves out of line with its opening quotes is not the stale-cache finding:
+            // there the first run's literals are aligned and only the wrapping of the tail differs
+            let misaligned = c12_multiline_strings(input, cfg).iter().any(|f| f.contains("not indented like the opening quotes"));
+            if misaligned {
+                vec!["c03: formatting the output again changes it (only with format_multiline_strings=true; the first run leaves a literal out of line with its opening quotes)".to_string()]
+            } else if in_child {
                 vec!["c03: formatting the output again changes it (only with format_multiline_strings=true; multi-line string inside a child line)".to_string()]
             } else {
                 vec!["c03: formatting the output again changes it (only with format_multiline_strings=true)".to_string()]
